@@ -8,7 +8,10 @@ use std::cell::RefCell;
 use std::future::Future;
 use std::panic::{catch_unwind, AssertUnwindSafe};
 use std::pin::Pin;
-use std::sync::atomic::{AtomicBool, Ordering};
+use std::sync::atomic::{AtomicBool, AtomicU64, Ordering};
+
+/// added to every kernel seed (set by the explorer / by a replay)
+pub static SEED_OFFSET: AtomicU64 = AtomicU64::new(0);
 use std::sync::{Arc, Once};
 use std::task::{Context, Poll, Wake, Waker};
 use std::time::Duration;
@@ -113,6 +116,9 @@ pub struct Kernel {
 
 impl Kernel {
     pub fn new(seed: u64) -> Self {
+        // the explorer repeats stateful explorations under several seeds (thorough tiers): the
+        // seed decides which of several simultaneously ready `select!` branches is taken
+        let seed = seed.wrapping_add(SEED_OFFSET.load(Ordering::SeqCst).wrapping_mul(0x9E37_79B9));
         let rt = tokio::runtime::Builder::new_current_thread()
             .enable_time()
             .start_paused(true)
